@@ -24,7 +24,9 @@ Inductive case :=
    WalletRead::suggest_scan_ranges afterwards *)
 | QStep (c : ctx) (pre : list sr) (op : qop) (post : qres (list sr)) (sugg : list sr)
 (* part B: a client loop run to quiescence on real blocks *)
-| QLoop (birthday tip steps rewound : Z) (final sugg : list sr) (fully : option Z).
+| QLoop (birthday tip steps rewound : Z) (final sugg : list sr) (fully : option Z)
+(* part B: WalletRead::chain_height() observed next to the stored rows *)
+| QChain (q : list sr) (h : option Z).
 
 Definition qerr_eqb (a b : qerr) : bool :=
   match a, b with DbConstraint, DbConstraint | OtherErr, OtherErr => true | _, _ => false end.
@@ -44,6 +46,7 @@ Definition run_case (c : case) : bool :=
   | QLoop b t _ _ final sugg fully =>
       list_eqb sr_eqb (suggest_scan_ranges final Historic) sugg &&
       option_eqb Z.eqb (fully_scanned_height final b) fully
+  | QChain q h => option_eqb Z.eqb (chain_tip_height q) h
   end.
 
 (** *** the property on the observations *)
@@ -99,6 +102,9 @@ Definition prop_case (c : case) : bool :=
       end
   | QLoop b t steps rewound final sugg fully =>
       loop_ok b t steps rewound (map row_of final) (map row_of sugg) fully
+  | QChain q h =>
+      (* the chain tip is the last height the queue covers *)
+      option_eqb Z.eqb (match rows_hi (map row_of q) with Some e => Some (e - 1) | None => None end) h
   end.
 
 (** Known-finding class 1: a sequence that contains an empty range (the tree API panics on
@@ -196,4 +202,5 @@ Definition tag_case (c : case) : N :=
          | _ => 0
          end)%N
   | QLoop _ _ _ rw _ _ _ => if rw =? 0 then 11000%N else 11001%N
+  | QChain _ h => match h with Some _ => 12000%N | None => 12001%N end
   end.
